@@ -122,6 +122,7 @@ def main():
         for o in out['inconclusive']:
             lines.append('INCONCLUSIVE: scenario %s: %s -> %s %s' % (out['name'], o['obligation'], o['verdict'], (o.get('detail') or '')[:200]))
             if rc != 1: rc = max(rc, 2)
+    if nviol > 0: rc = 1          # a replayed violation dominates inconclusive scenarios
     for l in lines: print(l)
     write_evidence(prop, tier, seed, results, time.time() - t0, nviol, mod)
     print('== %s: %s in %.1fs' % (prop, {0: 'HELD on everything explored', 1: 'VIOLATED', 2: 'INCONCLUSIVE / machinery fault'}[rc], time.time() - t0))
